@@ -260,6 +260,23 @@ theorem full_iff_pinned {w : F → K} (hw : ∀ e, w e ≠ 0) {D : C → F → K
   rw [flux_reduced_equiv hw, pressure_equiv hD k g hf]
   tauto
 
+/-- the full system is homogeneous: scaling the right-hand side scales the solution (so a back-end must not treat a
+small right-hand side as zero) -/
+theorem full_homogeneous {w : F → K} {D : C → F → K} {k : C} {g : F → K} {f : C → K} {r : K}
+    {u : F → K} {p : C → K} {lam : K} (a : K) (h : Full w D k g f r u p lam) :
+    Full w D k (fun e => a * g e) (fun c => a * f c) (a * r) (fun e => a * u e) (fun c => a * p c) (a * lam) := by
+  refine ⟨fun e => ?_, fun c => ?_, by rw [h.pin]⟩
+  · have := h.flux e
+    unfold divT at this ⊢
+    rw [show (∑ c, D c e * (a * p c)) = a * ∑ c, D c e * p c by
+      rw [mul_sum]; exact sum_congr rfl fun c _ => by ring]
+    linear_combination a * this
+  · have := h.mass c
+    unfold div ind at this ⊢
+    rw [show (∑ e, D c e * (a * u e)) = a * ∑ e, D c e * u e by
+      rw [mul_sum]; exact sum_congr rfl fun e _ => by ring]
+    split_ifs at this ⊢ <;> linear_combination a * this
+
 /-! ### C04: mass balance -/
 
 /-- `1ᵀD = 0 ∧ Σ f = 0` and the second block row ⇒ the multiplier vanishes -/
